@@ -245,6 +245,12 @@ func (f *FBaseProcessorFunction) SendReply(fctx FContext, oprot *FProtocol, meth
 
 func (f *FBaseProcessorFunction) trapError(ctx context.Context, fctx FContext, oprot *FProtocol, method string, err error) error {
 	if IsErrTooLarge(err) {
+		// The failed write may have left the output protocol in the middle of
+		// a message (the JSON protocol keeps a context stack and a sticky
+		// write error): start the error reply from a clean state.
+		if r, ok := oprot.TProtocol.(interface{ Reset() }); ok {
+			r.Reset()
+		}
 		f.sendError(ctx, fctx, oprot, APPLICATION_EXCEPTION_RESPONSE_TOO_LARGE, method, err.Error())
 		return nil
 	}
